@@ -1,6 +1,7 @@
 import CarModel.ReadOnly
 import CarModel.Proofs.IndexGen
 import CarModel.Proofs.IndexSearch
+import CarModel.Proofs.StoreInv
 /-
 What `OpenReadOnly` / `NewReadOnly` build over a CARv1 payload: helper lemmas about the records a
 generated index holds (C07 `opened_v1_*`).
@@ -40,6 +41,22 @@ theorem keptRecords_complete (o : IdxOpts) : ∀ (l1 : List Block) (b : Block) (
     have e : off + (sectionSize a + (sectionsBytes tl).length) = off + sectionSize a + (sectionsBytes tl).length := by omega
     rw [e]; exact this
 
+
+theorem insIndex_load_perm : ∀ (rs : List Record) (ix : InsIndex), List.Perm (InsIndex.load ix rs) (ix ++ rs) := by
+  intro rs
+  induction rs with
+  | nil => intro ix; simp [InsIndex.load]
+  | cons r tl ih =>
+    intro ix
+    simp only [InsIndex.load, List.foldl_cons]
+    have h1 := ih (ix.insert r)
+    simp only [InsIndex.load] at h1
+    refine h1.trans ?_
+    have h2 := insIndex_insert_perm ix r
+    have : List.Perm (ix.insert r ++ tl) ((r :: ix) ++ tl) := List.Perm.append_right tl h2
+    refine this.trans ?_
+    simp only [List.cons_append]
+    exact (List.perm_middle).symm
 
 /-- the index options a read-only store derives from its own options -/
 def roIdxOpts (o : WOpts) : IdxOpts :=
